@@ -133,6 +133,10 @@ def rule_table(rep: Report, rid="C19.table") -> None:
         sep = [(c, p) for c, p in gs if c not in [x[0] for x in rm]]
         ok_sep = False
         et = nf.emptiness_test(*sep[0]) if len(sep) == 1 else None
+        ex = nf.exists_form(I, sep[0][0], m.tree) if len(sep) == 1 and sep[0][1] is False else None
+        if ex is not None:
+            # "no cell matches": an existential scan over the cells, required to fail on the matching path
+            et = (("pair", ex[0], ex[2]), True)
         if et is not None and et[1] is True:
             c = et[0]       # the collection of separator cells, required to be empty on the matching path
 
